@@ -11,7 +11,7 @@
 (***************************************************************************)
 EXTENDS Dag
 
-CONSTANTS Mode, Limits, Serials, Buffereds, MaxHist, WithCancel, WithEnvLock, Outcomes, MaxFrags
+CONSTANTS Mode, Limits, Serials, Buffereds, MaxHist, WithCancel, WithEnvLock, Outcomes, MaxFrags, WithTaskMap
 
 VARIABLE hist   \* number of construction calls made (build mode)
 
@@ -25,6 +25,7 @@ InitRunMode ==
   /\ verts = Tasks
   /\ retries \in [Tasks -> 0..MaxRetries]
   /\ gerrs = 0
+  /\ dot = <<>> /\ tmKnown = {} /\ tmErrs = 0
 
 Init ==
   /\ IF Mode = "run" THEN InitRunMode ELSE EmptyGraph
@@ -40,6 +41,7 @@ Build ==
      \/ \E t, d1, d2 \in Tasks : DependsOnSeq(t, <<d1, d2>>)
      \/ \E t \in Tasks : \E r \in 0..MaxRetries : (r # retries[t]) /\ SetRetries(t, r)
      \/ DefError
+     \/ WithTaskMap /\ \E t \in Tasks : TmAdd(t)
 
 RunStep ==
   \/ StartRun
@@ -86,4 +88,5 @@ Safety ==
   /\ NoDependentOfFailed /\ NoDependentOfSkipParents /\ ReportComplete /\ SkipParentsSilent /\ NoLaunchAfterCancelObserved
   /\ ExecBound /\ SerialOne /\ SerialHB /\ TaskMutex /\ BlocksWhole
   /\ CycleRejected /\ NoStartOnCycle /\ WorkConservingLaunch
+  /\ (Mode = "build" => DotComplete)
 =============================================================================
